@@ -141,7 +141,7 @@ HEADER = """#[verifier::exec_allows_no_decreases_clause]
             // control reaches `label` exactly when the condition holds (negated if asked); otherwise it falls through; a jump pending on entry stays pending
             (res is Ok && res->Ok_0 is None) ==> final(self).skip@ == after(old(self).skip@, truth(*condition) != negate, label@), //@ C01,C15:gencond-jumps-iff-condition
             // a condition decided at compile time emits no jump and reports whether control would have reached `label`
-            (res is Ok && res->Ok_0 is Some) ==> (final(self).skip@ == old(self).skip@ && res->Ok_0->Some_0 == (truth(*condition) != negate)), //@ C01,C10,C13:gencond-constant-condition
+            (res is Ok && res->Ok_0 is Some) ==> (final(self).skip@ == old(self).skip@ && res->Ok_0->Some_0 == (truth(*condition) != negate)), //@ C01,C10,C13,C16:gencond-constant-condition
             (res is Ok && !immediate_special) ==> res->Ok_0 is None, //@ C01,C13:gencond-constant-only-when-asked
 """
 
